@@ -44,12 +44,12 @@ theorem neutral_functionalInterfaces (nums : List Nat) : Neutral (functionalInte
 theorem neutral_staticMember {d : Text} (h : Neutral d) : Neutral (sp 2 ++ "static " ++ lstrip d) := by
   fin_neutral [h.eq]
 
-/-- the unit assembled by `visit_program` is neutral when the translator starts in a state whose
-collected texts are neutral and every top-level declaration lies in the fragment `NodeOK` -/
-theorem translateFrom_neutral (e : Env) (pkg : String) (st : St) (decls : List Node) (hst : StOK st)
-    (hp : BrFree pkg) (hd : NodesOK decls) : Neutral (translateFrom e pkg st decls) := by
+/-- the unit assembled by `visit_program` is neutral when the visits of the top-level declarations
+leave neutral collected texts and answer neutral texts -/
+theorem translateFrom_neutral_of (e : Env) (pkg : String) (st : St) (decls : List Node) (hp : BrFree pkg)
+    (h : StOK (visitL (visit e (fuelOf decls)) st decls).1 ∧
+      ∀ r ∈ (visitL (visit e (fuelOf decls)) st decls).2, Neutral r) : Neutral (translateFrom e pkg st decls) := by
   unfold translateFrom visitProgram
-  have h := visitL_ok (visit_ok e (fuelOf decls)) decls st hst hd
   generalize visitL (visit e (fuelOf decls)) st decls = r at h
   obtain ⟨s1, rs⟩ := r
   simp only at h ⊢
@@ -86,5 +86,11 @@ theorem translateFrom_neutral (e : Env) (pkg : String) (st : St) (decls : List N
   generalize (if join "\n\n" (((decls.zip rs).filter fun p => !(st.ns == ["global"] && routed p.1)).map (·.2)) != ""
       then "\n\n" ++ join "\n\n" (((decls.zip rs).filter fun p => !(st.ns == ["global"] && routed p.1)).map (·.2)) else "") = f at hoth'
   fin_neutral [hpk.eq, hmd.eq, hmain.eq, hfi.eq, hoth'.eq]
+
+/-- the unit assembled by `visit_program` is neutral when the translator starts in a state whose
+collected texts are neutral and every top-level declaration lies in the fragment `NodeOK` -/
+theorem translateFrom_neutral (e : Env) (pkg : String) (st : St) (decls : List Node) (hst : StOK st)
+    (hp : BrFree pkg) (hd : NodesOK decls) : Neutral (translateFrom e pkg st decls) :=
+  translateFrom_neutral_of e pkg st decls hp (visitL_ok (visit_ok e (fuelOf decls)) decls st hst hd)
 
 end Heph.TransJava
